@@ -155,7 +155,14 @@ func genBatch(r *rand.Rand, dir string, idx int) batchSpec {
 			}
 			sb.WriteString("wait\n")
 		case "fail":
-			sb.WriteString("exists no-such-file\n")
+			if r.Intn(3) == 0 {
+				// the failing line is a background start under a name that a live job still holds: nothing
+				// may be started by it (a process started there is in no list and would outlive the run)
+				fmt.Fprintf(&sb, "! exec vhelper block %s &dup&\n", filepath.Join(spec.PidDir, fmt.Sprintf("%s-d0", tok)))
+				fmt.Fprintf(&sb, "exec vhelper block %s &dup&\n", filepath.Join(spec.PidDir, fmt.Sprintf("%s-d1", tok)))
+			} else {
+				sb.WriteString("exists no-such-file\n")
+			}
 		case "skip":
 			sb.WriteString("skip 'not now'\n")
 		case "stop":
@@ -255,7 +262,7 @@ func main() {
 		return
 	}
 	vlib.Main("C04", "exploration", 12*time.Minute, func(r *vlib.Run) {
-		r.Rule("batches of 2-12 generated scripts per RunT call (explicit files incl. duplicate base names from different directories), each script: listing of $WORK first, child-process environment, own variable / file / sub-directory / background jobs (SIGINT-terminable and slow-to-die), a rendezvous at which all parallel scripts overlap, ownership re-check, read-only trees (0555/0444), three defer marks; endings pass / fail early / fail late / failing plain wait with later jobs still running / skip / stop / failing Setup; retention none / TestWork / WorkdirRoot; both T styles; every batch runs twice (parallel with subtests released after RunT returned, and one script at a time) with a recording T, and every second batch a third time on the real *testing.T (a test binary built from checks/c04/realt), each in a process of its own as uid 65534 or root. Non-trivial/distinct = distinct (ending multiset, retention, mode, uid) batches in which the rendezvous completed.")
+		r.Rule("batches of 2-12 generated scripts per RunT call (explicit files incl. duplicate base names from different directories), each script: listing of $WORK first, child-process environment, own variable / file / sub-directory / background jobs (SIGINT-terminable and slow-to-die), a rendezvous at which all parallel scripts overlap, ownership re-check, read-only trees (0555/0444), three defer marks; endings pass / fail early / fail late (a missing file, or a background start under a name a live job still holds) / failing plain wait with later jobs still running / skip / stop / failing Setup; retention none / TestWork / WorkdirRoot; both T styles; every batch runs twice (parallel with subtests released after RunT returned, and one script at a time) with a recording T, and every second batch a third time on the real *testing.T (a test binary built from checks/c04/realt), each in a process of its own as uid 65534 or root. Non-trivial/distinct = distinct (ending multiset, retention, mode, uid) batches in which the rendezvous completed.")
 		r.Assume("grandchildren of started processes are not tracked; background helpers always die on SIGINT (possibly 150 ms late)")
 		base := vlib.Scratch()
 		os.Chmod(base, 0o777)
